@@ -26,7 +26,7 @@ TAGS = ["weight", "bias", "norm", "output"]
 
 
 def gen_cases(tier: str, seed: int) -> List[Dict[str, Any]]:
-    n = 1280 if tier == "quick" else 80000
+    n = 1280 if tier == "quick" else 240000
     cases = []
     for i in range(n):
         rng = rng_for(seed, PROPERTY, i)
